@@ -520,7 +520,7 @@ impl Prop for C07 {
     fn rule() -> String {
         "proptest: channel metrics (bitrate in {0,1,8,1e3,1e4,1e6,1e9,2e12,usize::MAX/16}, latency in {0,1ns,1ms,50ms,3s}, jitter in {0,1us,10ms}, \
          policy Drop | Queue(None) | Queue(abs) | Queue(fit of the first k messages -1/0/+1)) x traffic: a sender with chained self-timers, each \
-         offering a burst of 1..4 messages (body sizes 0..1500) with gaps 0 | ns | tau*q/4 +-1ns of the previous transmission time, the next \
+         offering a burst of 1..4 (sometimes 21..32) messages (body sizes 0..1500) with gaps 0 | ns | tau*q/4 +-1ns of the previous transmission time, the next \
          timer scheduled before or after the burst (both tie orders); in 40% of the cases the receiving module offers such traffic into the \
          same connection the other way round (separate channel instance per direction, each direction judged by its own model run). Oracle: an independent channel model on RefSim (idle -> start now, busy for \
          tau, Drop / byte-bounded FIFO queue, head starts the instant the channel is idle, zero-length transmissions chain): transmission starts \
@@ -556,7 +556,8 @@ impl Prop for C07 {
             2 => prop_oneof![Just(1u32), 1u32..100_000].prop_map(Gap::Ns),
             6 => (prop_oneof![Just(4u8), Just(2), Just(1), Just(8), Just(12), 0u8..16], -1i8..=1).prop_map(|(n, d)| Gap::Tau(n, d)),
         ];
-        let offer = (gap, any::<bool>(), proptest::collection::vec(0u8..SIZES.len() as u8, 1..=4))
+        let burst = prop_oneof![8 => proptest::collection::vec(0u8..SIZES.len() as u8, 1..=4), 1 => proptest::collection::vec(0u8..SIZES.len() as u8, 21..=32)];
+        let offer = (gap, any::<bool>(), burst)
             .prop_map(|(gap, timer_first, burst)| Offer { gap, timer_first, burst });
         (
             0u8..BITRATES.len() as u8,
